@@ -55,10 +55,12 @@ def _one(args):
         new = [o for o in ctx.obs if not o.ok and o.key not in base_failed]
         if m.get('benign'):
             # behaviour-preserving variant: the rules must stay silent
-            return m['id'], ('detected' if not new else 'false-alarm'), '; '.join(o.key for o in new)[:300]
+            quiet = not new and not ctx.floor_failures
+            return m['id'], ('detected' if quiet else 'false-alarm'), '; '.join([o.key for o in new] + ctx.floor_failures)[:300]
         exp = m.get('expect', '')
         hit = [o for o in new if exp in o.key]
         if hit: return m['id'], 'detected', hit[0].key
+        if ctx.floor_failures and not m.get('benign') and m.get('expect') == 'ANALYSIS-ERROR': return m['id'], 'detected', 'floor'
         return m['id'], 'missed', '; '.join(o.key for o in new)[:300]
     except Exception as e:
         import traceback
